@@ -325,7 +325,7 @@ func execC12(c *Case) {
 		cc := c06Gen(r, "x", "C06")
 		q := renderFasta(splitNames(cc.Get("qnames")), strings.Split(cc.Get("qseqs"), ","), lay)
 		t := renderFasta(splitNames(cc.Get("tnames")), strings.Split(cc.Get("tseqs"), ","), lay)
-		if r.Chance(1, 3) {
+		if atScale(r, 3) {
 			// scale: sequences of 33 000 - 70 000 columns on one line each (whatever a reader does piecewise or in
 			// parallel for long lines), targets at the same distance from the query that differ in completeness by a
 			// single N, the less complete one first in the file: the tie-break reads the completeness score
